@@ -23,6 +23,14 @@ the length, the composed affine map (fold in an abstract monoid), well-formednes
 the normal form (iscanonical's predicate / its mirror image), given the item-level contract A-SWAP.
 Item level (contracts/c11_swap.py, BOUNDED native enumeration): the real swapup/swapdown of SimplexEdge (whole `swap` table,
 ndims 1..3), TensorEdge1/2, ScaledUpdim, Updim satisfy A-SWAP in exact rational arithmetic.
+
+Second round (notes/C11-c11b.md):
+  contracts/c11_struct.py   StructuredTransforms LOOKUP harness (bounded: <= 3 axes, <= 2 refinements; all axis values symbolic incl. periodic)
+  contracts/c11_plain.py    PlainTransforms LOOKUP harness (bounded: 3 elements with heads of different lengths, symbolic ids), EmptyTransforms,
+                            Transforms.index / contains / contains_with_tail
+  contracts/c11_basearr.py  integer-array branch of the base class Transforms.__getitem__ (unbounded)
+  contracts/c11_seq.py      bounded native enumerations: array / slice / mask forms of __getitem__, transformseq.chain, elementseq / pointsseq containers
+  contracts/c11_get.py      _Uniform/_Take/_Repeat/_Product.get of elementseq and pointsseq (unbounded)
 """
 import z3
 from pyvc.contract import Contract, State
@@ -536,6 +544,10 @@ TRUSTED = ['pyvc symbolic executor and its Python model; harness contracts compo
            '<= x (right) / < x (left); numpy.empty((), object) with a[()] = x',
            'container get (contracts/c11_get.py): abstract parent sequences (get(k) = uninterpreted item for 0 <= k < len, IndexError otherwise), item.product uninterpreted; L-RADIX, ground L-DIVMOD',
            'bounded native enumerations (contracts/c11_seq.py, native/c11b.py): the enumeration harness itself (reference semantics = Python lists of the elements obtained by integer access)',
+           'base-class array indexing (contracts/c11_basearr.py): numpy any/all over comparison results (exists/forall), less/greater/greater_equal/equal with a scalar, diff, fancy indexing a[s], '
+           'argsort(a) = a permutation of range(len(a)) with an inverse such that a[s] is non-decreasing, argsort of a permutation = its inverse (L-PERM); inductive lemmas L-MONO (strict), L-MONO-GAP, L-PROG '
+           '(adjacent differences 1 => arithmetic progression) offered for the index array; types.arraydata is the identity on arrays; the meaning of the produced Masked/Reordered objects '
+           '(item k = parent[indices[k]], len(Reordered) = len(parent)) is the one their integer __getitem__ is verified against in the LOOKUP harnesses',
            'all of the above cross-checked on random inputs in native/axioms_c11b.py (L-RADIX, ground L-DIVMOD, searchsorted on object arrays, Axis callee contract, A-NF-S / A-NF-P on real sequences)']
 ASSUMPTIONS = ['parent satisfies LOOKUP (structural induction over the nesting of sequence classes: meta-argument)',
                'documented class preconditions: strictly increasing mask indices; permutation indices; derived transforms of a reference are pairwise distinct',
@@ -553,8 +565,12 @@ ASSUMPTIONS = ['parent satisfies LOOKUP (structural induction over the nesting o
                'precondition that no transform is a head of another; A-NF-P (ASSUMED, cross-checked natively): promote(element + tail, fromdims) == element + NF(tail) for the canonical elements; '
                'for a foreign chain promote is taken as the identity (any chain none of whose heads is an element)',
                'Transforms.index/contains/contains_with_tail: self.index_with_tail is abstract (returns (k, ()) / (k, (item,)) or raises ValueError)',
+               'Transforms.__getitem__(int array): the recursive call self[index[s]] is replaced by the contract of the sorted case (`#int-array,sorted`, proved with the real body; its precondition '
+               '"sorted and in range" is an obligation at the call); self is an abstract sequence (only len(self), todims, fromdims are read)',
                'container get: _Take indices lie within the parent (checked by the constructor), count >= 1, lengths >= 0; parents are only asked for normalised (non-negative) indices']
-NOT_COVERED = ['StructuredTransforms beyond 3 axes / 2 refinements / the exercised patterns of boundary axes; its constructor (_ctransforms, _cindices, _etransforms tables); lookup soundness '
+NOT_COVERED = ['Transforms.__getitem__: the slice and boolean-mask branches and the subclass overrides (Masked/Reordered/Chained) are covered by bounded native enumeration only; "rejected EXACTLY for" is proved as '
+               '"accepted => in range and distinct" plus "IndexError/ValueError only for an out-of-range/repeated index" (together: exactly); index arrays of ndim != 1',
+               'StructuredTransforms beyond 3 axes / 2 refinements / the exercised patterns of boundary axes; its constructor (_ctransforms, _cindices, _etransforms tables); lookup soundness '
                '("found only members") for periodic axes (unmap accepts any congruent index); PlainTransforms beyond three elements of 2, 1, 3 items and its constructor (argsort of the object array)',
                'array / slice / mask forms of __getitem__ and transformseq.chain: only BOUNDED native enumeration on small real sequences (no symbolic proof); negative slice steps (NotImplementedError by design); '
                'ChainedTransforms whose items are themselves chained (only producible by calling the constructor directly: chain() flattens one level)',
